@@ -61,6 +61,7 @@ def run(ctx):
     ctx.finish("model_checking", {
         "evaluations": len(cases),
         "distinct_nontrivial": len([c for c in cases if c["expect"] != "typed"]),
+        "object_source_rule": "where the type of a carried object comes from: carrier in {Get response, Register request, Export response, Import request} x Object Type field x Object Type attribute x type of the object present; the field governs where there is one (an attribute next to it never overrides it), the attribute for Import; accepted only if the governing type is registered and the object present has it",
         "rule": "Dispatch.tla: the live dispatch tables (verif export) must equal the pinned ones (27 operations x 2 directions, 9 object types, 50 attributes) and the operation classes must partition the Operation enumeration (TLC); cases = every enumerated operation code (27 implemented, 16 named but unimplemented) and codes outside the enumeration x request/response x {TTLV, XML, JSON}; every object type and unknown object types; every standard attribute with a value of its pinned type, custom / arbitrary / empty names x the ten TTLV value types, and standard names in another letter case; messages are assembled with the independent encoder and decoded by the library: Go type and Operation()/ObjectType() of the result, byte-identical re-encoding of opaque payloads and attributes, error for unknown object types; non-trivial = opaque and error cases; %d typed attribute cases skipped because the harness could not build a value of the pinned type" % summ[0].get("skipped", 0),
         "exhaustive": True, "samples": cases[:2] + [c for c in cases if c["expect"] == "error"][:1],
     }, assumptions=["the pinned tables are a snapshot of this tree", "XML / JSON documents are produced from the binary message through the library's generic (untyped) value"])
